@@ -31,6 +31,9 @@ CLAIMED = {
  "C04": ("7/C04", "must-pass-through / ordering rules (node cut with deferred-call awareness) over the file-system effect sequence of Open, the two snapshot recoverers and package pebble's 'current' protocol; guard entailment on the cleanup; provenance of Open's result; shared C01.a-c obligations",
          "Structural necessary conditions only: data+index in one batch; Sync/Close flush; temp-file write-sync-rename-dirsync protocol with no dropped error; directory exists before its name is published; install order received-files-synced -> build -> save -> replace -> swap -> close(old) -> cleanup; cleanup spares 'current' and the directory it names; Open returns the persisted index. The crash-point quantifier itself and Pebble's durability are not decided.",
          "go/types+go/ssa; vfs durability semantics; pebble.Open creates its directory, Ingest is durable on return"),
+ "C06": ("7/C06", "CFG edge-cut guard entailment with linear integer atoms (interval-normalised) on the stream handler and the log read, loop rules (one command per entry), ownership of the cache buffer, guard entailment on every cache put, event-dispatch reachability, interval fact on the size cut",
+         "Structural necessary conditions only: range arithmetic of the stream handler, the four-way decision of the log read and its mapping to error responses, dense/ordered/labelled command construction, cache write hygiene and invalidation wiring, size cut >= 1 entry. Equivalence of cached and uncached answers for every cache state is NOT decided.",
+         "go/types+go/ssa; dragonboat ReadonlyLogReader contract; applied index monotone"),
 }
 PENDING_REASON = "rules designed (DESIGN.md section 7), check not built yet"
 checks=[]; na=[]
